@@ -566,3 +566,98 @@ Theorem C05_gc_snap_example :
     [(2%positive, mkC 1 [mkEdge (RT 0%N) false; mkEdge (RT 1%N) false] 1%N)].
 Proof. exact gc_snap_example. Qed.
 Print Assumptions C05_gc_snap_example.
+
+(** ** TDD (package TDDx): the reference-count audit for ternary nodes.  [td_rc_b] (DD/TddAudit.v) decides
+    "count reported by InnerNode::ref_count = handles holding the node + (true, unknown, false) child slots of
+    stored nodes pointing to it"; on a TdOK table it is the generic audit [rc_exact_b s []]; with no zero count
+    (the state right after a collection) every stored node is reachable from a handle, and with no handle
+    nothing is stored.  Collections of the TDD manager state machine Mgr/TddHist.v. *)
+From Coq Require Import List NArith PArith Bool Arith FMapPositive.
+From OxiVerif Require Import DD.Table DD.TableExtra DD.TableProofs DD.Build DD.BuildProofs DD.Apply DD.ApplyProofs DD.ConfigApply
+  DD.Tdd DD.ApplyTdd DD.ApplyTddBase DD.ApplyTddProofs DD.ApplyTddTop DD.TddAudit DD.TddAuditProofs
+  Mgr.History Mgr.OomGc Mgr.TddHist Mgr.TddHistProofs Mgr.TddHistSim Mgr.TddHistExamples.
+Import ListNotations.
+
+(* the ternary audit decides the counting equation (every snapshot, no hypothesis) *)
+Theorem C05_tdd_rc_b_spec : forall s,
+  td_rc_b s = true <->
+  forall id nd, find_node s id = Some nd ->
+    nrc nd = N.of_nat (td_handles_to s id + td_parents_to s id).
+Proof. exact td_rc_b_spec. Qed.
+Print Assumptions C05_tdd_rc_b_spec.
+
+(* on a TDD table it IS the generic audit (as booleans) *)
+Theorem C05_tdd_rc_b_exact : forall s, TdOK s -> td_rc_b s = rc_exact_b s [].
+Proof. exact td_rc_b_exact. Qed.
+Print Assumptions C05_tdd_rc_b_exact.
+
+(* in terms of owners: handle entries and child edges of stored nodes *)
+Theorem C05_tdd_rc_owners : forall s, TdOK s -> td_rc_b s = true ->
+  forall id nd, find_node s id = Some nd ->
+    nrc nd = N.of_nat (refs_to id (handle_refs s) + refs_to id (child_refs s)).
+Proof. exact td_rc_owners. Qed.
+Print Assumptions C05_tdd_rc_owners.
+
+(* exact counts + no zero count => nothing unreachable is stored *)
+Theorem C05_tdd_no_dead_reachable : forall s, TdOK s -> td_rc_b s = true -> no_dead_b s = true ->
+  forall id nd, find_node s id = Some nd -> reachable s (handle_refs s) (RN id).
+Proof. exact td_no_dead_reachable. Qed.
+Print Assumptions C05_tdd_no_dead_reachable.
+
+(* "drop every handle; gc()": an empty store *)
+Theorem C05_tdd_dropall_empty : forall s, TdOK s -> td_rc_b s = true -> no_dead_b s = true ->
+  s_handles s = [] -> forall id, find_node s id = None.
+Proof. exact td_dropall_empty. Qed.
+Print Assumptions C05_tdd_dropall_empty.
+
+Theorem C05_tdd_no_handles_empty_b_spec : forall s,
+  td_no_handles_empty_b s = true <-> s_handles s = [] /\ forall id, find_node s id = None.
+Proof. exact td_no_handles_empty_b_spec. Qed.
+Print Assumptions C05_tdd_no_handles_empty_b_spec.
+
+(* a collection (restriction to what the handles reach) of a TdOK table: TdOK again, a sub-table, every handle
+   valid, every surviving reference denotes what it denoted, nothing unreachable is left *)
+Theorem C05_tdd_collected_ok : forall s sg, TdOK s -> collected s sg ->
+  TdOK sg /\ extends sg s /\
+  (forall h, In h (s_handles s) -> ref_ok sg (eref (snd h))) /\
+  (forall r phi, ref_ok sg r -> (DenT sg r phi <-> DenT s r phi)) /\
+  (forall r av, ref_ok sg r -> tfun_of sg r av = tfun_of s r av) /\
+  (forall id nd, find_node sg id = Some nd -> reachable sg (handle_refs sg) (RN id)).
+Proof. exact td_collected_ok. Qed.
+Print Assumptions C05_tdd_collected_ok.
+
+(* gc() inside any history: the invariant, the same handles, exactly the reachable nodes survive, every slot
+   keeps its function *)
+Theorem C05_tdd_hist_gc :
+  forall (gt : ref -> ref -> bool) (C : Type) (cget : C -> N -> list ref -> option ref)
+         (cadd : C -> N -> list ref -> ref -> C) (cempty : C),
+  lossy cget cadd -> (forall k a, cget cempty k a = None) ->
+  forall st st' : tstate C, TInv C cget st -> tstep gt C cget cadd cempty st TGc = Some st' ->
+  TInv C cget st' /\ s_handles (t_s C st') = s_handles (t_s C st) /\
+  (forall id nd, find_node (t_s C st') id = Some nd ->
+     find_node (t_s C st) id = Some nd /\ reachable (t_s C st') (handle_refs (t_s C st')) (RN id)) /\
+  (forall id nd, find_node (t_s C st) id = Some nd -> reachable (t_s C st) (handle_refs (t_s C st)) (RN id) ->
+     find_node (t_s C st') id = Some nd) /\
+  (forall x r, tslot (t_s C st) x = Some r ->
+     ref_ok (t_s C st') r /\ forall av : nat -> tri, tfun_of (t_s C st') r av = tfun_of (t_s C st) r av).
+Proof. exact thist_gc. Qed.
+Print Assumptions C05_tdd_hist_gc.
+
+Theorem C05_tdd_hist_dropall_gc :
+  forall (gt : ref -> ref -> bool) (C : Type) (cget : C -> N -> list ref -> option ref)
+         (cadd : C -> N -> list ref -> ref -> C) (cempty : C),
+  lossy cget cadd -> (forall k a, cget cempty k a = None) ->
+  forall st st' : tstate C, TInv C cget st -> s_handles (t_s C st) = [] ->
+  tstep gt C cget cadd cempty st TGc = Some st' -> forall id, find_node (t_s C st') id = None.
+Proof. exact thist_dropall_gc. Qed.
+Print Assumptions C05_tdd_hist_dropall_gc.
+
+(* non-vacuity: exact counts incl. an unreferenced node; after the collection it is gone, the handles are the
+   same; (gc_model does not maintain counters: the audit notices the stale count) *)
+Theorem C05_tdd_example :
+  (td_audit_b ex_t3 = true /\ td_ok_b ex_t3 = true /\ rc_exact_b ex_t3 [] = true) /\
+  no_dead_b ex_t3 = false /\
+  (td_wf3_b ex_t3_collected = true /\ td_rc_b ex_t3_collected = false /\ no_dead_b ex_t3_collected = true /\
+   find_node ex_t3_collected 3 = None /\ s_handles ex_t3_collected = s_handles ex_t3).
+Proof. exact (conj ex_t3_audit (conj ex_t3_dead ex_t3_collected_ok)). Qed.
+Print Assumptions C05_tdd_example.
